@@ -40,8 +40,10 @@ CLAIMS["C14"] = dict(
           "is the recorded status'; Status/Written/Size are then the property's definitions; informational codes are forwarded without changing state; a second "
           "final WriteHeader forwards nothing; Write/WriteString forward the header first and add exactly the accepted count even on error; ReadFrom has one "
           "postcondition for the io.ReaderFrom fast path and the io.CopyBuffer fallback; capability methods delegate iff the wrapped writer offers the capability and "
-          "otherwise return an error that Is http.ErrNotSupported; flush forwards the header first. Not decided: byte order of the body, the Context helpers "
-          "String/Blob/Stream/Redirect (not yet under contract)."),
+          "otherwise return an error that Is http.ErrNotSupported; flush forwards the header first. The Context helpers: String sets the default content type only when none is set, "
+          "then forwards exactly the given status before any body byte and hands format and values to Fprintf on the context's writer; Blob and Stream set the given content type, "
+          "forward the given status first and write exactly the given bytes / copy from the given reader; Redirect rejects every code outside 300..308 with ErrInvalidRedirectCode "
+          "without touching the response and otherwise calls http.Redirect with the given url and code. Not decided: byte order of the body inside the wrapped writer."),
     design_ref="DESIGN.md §4 C14, §9",
     note=TRUSTED + " Assumed interface contracts for foreign http.ResponseWriter / io.ReaderFrom / http.Flusher / Hijacker implementations and for io.WriteString, io.CopyBuffer (foxvc/externs/http.spec). ReadFrom is verified for partial correctness (the sync.Pool type assertion is assumed). A genuine defect in ReadFrom was repaired (known_findings.json).")
 
@@ -75,7 +77,8 @@ CLAIMS["C04"] = dict(
           "nil and publishes nothing otherwise; its deferred function aborts and re-raises the same panic value when a panic is in flight (checked as a separate behaviour of the "
           "closure), likewise View. Router.Handle/HandleRoute/Update/UpdateRoute/Delete are one locked read-modify-write: lock released on every exit, exactly one publication on success "
           "and none on error, no load of the published tree outside the lock, the returned route is the transaction's. Txn.Handle/HandleRoute/Update/UpdateRoute/Delete panic only on a settled "
-          "transaction and return ErrReadOnlyTxn without touching the tree on a read-only one. Not decided: interleavings with concurrent readers (rests on C03 plus the single atomic store)."),
+          "transaction and return ErrReadOnlyTxn without touching the tree on a read-only one; Txn.Has/Route/Reverse/Lookup/Iter/Len panic only on a settled transaction, never lock, "
+          "never publish and leave the transaction's root and counter alone (Iter on a write transaction takes a snapshot first). Not decided: interleavings with concurrent readers (rests on C03 plus the single atomic store)."),
     design_ref="DESIGN.md section 4 C04, section 9",
     note=TRUSTED + " Assumed contracts: sync.Mutex Lock/Unlock and atomic.Pointer Load/Store over ghost state; the callback given to Updates/View neither commits nor aborts the transaction.")
 CLAIMS["C05"] = dict(
@@ -172,7 +175,8 @@ CLAIMS["C12"] = dict(
           "context clean); CloneWith produces a context with its own parameter array holding the current values; Close returns a context to the pool only when its buffers are "
           "within the router's limits; Router.Lookup hands out a context showing exactly the current request, the selected route and its tsr flag; Clone returns a fresh context whose "
           "recorder snapshots the CURRENT writer's status/size/written flag, with its own copy of the response headers, its own writer and its own parameter array holding the current "
-          "values (exposed a genuine defect - the clone showed an earlier request's status and headers - repaired). Not decided: that later writes through the original cannot reach the "
+          "values (exposed a genuine defect - the clone showed an earlier request's status and headers - repaired). Pool discipline: no handler is ever invoked with a context that has "
+          "already been put back into the pool (ghost `released`), Lookup and CloneWith return live contexts, Close releases. Not decided: that later writes through the original cannot reach the "
           "clone's header map (http.Header.Clone is assumed to be a deep copy), TeeWriter, concurrent reuse (pool semantics assumed)."),
     design_ref="DESIGN.md section 4 C12, section 9",
     note=TRUSTED + " Assumed: sync.Pool Get returns either a fresh context from New or one previously Put (pool-discipline assume-at in ServeHTTP), url.ParseQuery extern. CloneWith/Close/copyWithResize partial correctness.")
